@@ -825,9 +825,9 @@ package core
 // The trie (PatternIndex) is opaque: its Add/Rem/Search are observed through ghost records only.
 //@ ghost piAddedId string
 //@ ghost piRemovedId string
-//@ ghost piRemovedPat map[string]interface{}
+//@ ghost piRemovedPat ref
 //@ ghost unindexedId string
-//@ ghost unindexedRule map[string]interface{}
+//@ ghost unindexedRule ref
 //@ func (*PatternIndex).AddPatternMap
 //@   ghost-ensures piAddedId == id
 //@   also-modifies piAddedId
